@@ -220,8 +220,9 @@ def _place_ok(pat, root):
 
 # ---- H-order ----------------------------------------------------------------------------------------------------
 
-def _eval_order(body):
-    """Calls and raise sites in evaluation order (arguments before the call)."""
+def _eval_order(body, F=None, depth=0):
+    """Calls and raise sites in evaluation order (arguments before the call); private helper functions of
+    the crate are expanded in place (two levels) so that moving code into a helper does not change the order."""
     out = []
 
     def rec(n):
@@ -231,7 +232,14 @@ def _eval_order(body):
         if k == "Call":
             for a in n["args"]:
                 rec(a)
-            out.append(("call", n["fn"].get("res") or n["fn"].get("def") or "?", n))
+            callee = n["fn"].get("res") or n["fn"].get("def") or "?"
+            out.append(("call", callee, n))
+            if F is not None and depth < 2 and n["fn"].get("krate") == "mqtt_proto" and callee in F.fns \
+                    and not callee.startswith("common::utils::") and "::from_u8" not in callee and "try_from" not in callee \
+                    and not callee.endswith("::decode_async") and not callee.endswith("::is_invalid"):
+                hb = nbody(F, callee)
+                if hb is not None:
+                    out.extend(_eval_order(hb, F, depth + 1))
             return
         if k == "Adt" and n.get("adt") in ERR_ADTS and n["variant"] != "Common":
             for f in n["fields"]:
@@ -266,7 +274,7 @@ def h_order(F, R):
             if b is None:
                 R.fail("H-order", "anchor-lost/%s" % t, "decoder %s not found" % t)
                 continue
-            order = _eval_order(b)
+            order = _eval_order(b, F)
             ia = _first(order, _pred(a_desc))
             ib = _first(order, _pred(b_desc))
             if ia is None and ib is None and fid.endswith("*"):
